@@ -202,8 +202,10 @@ def volSources (s : Svc) : List String :=
 def secretSources (s : Svc) : List String := s.secrets ++ (s.build.getD [])
 
 /-- `for k := range required { if v, ok := p.X[k]; ok { out[k] = v } }` -/
-def pick (required : List String) (m : AL String) : AL String :=
-  required.foldl (fun acc k => match lookup k m with | some v => insert k v acc | none => acc) []
+def pickStep (m : AL String) (acc : AL String) (k : String) : AL String :=
+  match lookup k m with | some v => insert k v acc | none => acc
+
+def pick (required : List String) (m : AL String) : AL String := required.foldl (pickStep m) []
 
 /-- `Project.WithoutUnnecessaryResources` -/
 def withoutUnnecessaryResources (p : Proj) : Proj :=
